@@ -1,5 +1,77 @@
 import FcpptModel.Prelude.Proto
-/-! Driver for C05 — placeholder until the property's model is built. -/
+import FcpptModel.Model.C05
+import FcpptModel.Spec.C05
+/-!
+Driver for C05.  One operation per line:
+
+    <op> <T|M> <nargs> <cat>:<ids> …  <par> …
+
+`T`: the copyable instrumented element type, `M`: its move-only twin (only accepted when the
+model's program contains no copy — such an instantiation would not compile).  `<cat>` is
+`l` (T&), `c` (T const&), `r` (T&& / by value), `i` (in/out T&); `<ids>` is `1,2,3` or `-`.
+Result line: `t=<tag> r=<slots> a0=<slots> … cp=<ids> mv=<ids> ram=<ids>`; a slot is its identity,
+prefixed with `~` when the object is moved-from; `cp` and `ram` sorted without duplicates,
+`mv` sorted with multiplicity (moves out of argument objects, in-place moves included).
+-/
 namespace Fcppt.C05.Drv
-def main : IO Unit := Fcppt.Proto.run (fun _ => "not-built")
+open Fcppt.Proto
+
+def parseCat : String → Option Cat
+  | "l" => some .lv | "c" => some .cr | "r" => some .rv | "i" => some .io | _ => none
+
+def parseArg (s : String) : Option (Cat × List Nat) :=
+  match s.splitOn ":" with
+  | [c, ids] => do
+    let c ← parseCat c
+    let ids ← parseNatList ids
+    some (c, ids)
+  | _ => none
+
+def opOfName (s : String) : Option Op := Op.all.find? (·.name == s)
+
+def insertSorted (x : Nat) : List Nat → List Nat
+  | [] => [x]
+  | y :: ys => if x ≤ y then x :: y :: ys else y :: insertSorted x ys
+
+def sort (l : List Nat) : List Nat := l.foldr insertSorted []
+
+def dedup : List Nat → List Nat
+  | [] => []
+  | x :: xs => if xs.contains x then dedup xs else x :: dedup xs
+
+def showIds (l : List Nat) : String := if l.isEmpty then "-" else natList l
+
+def showSlots (l : List Slot) : String :=
+  let p := present l
+  if p.isEmpty then "-" else ",".intercalate (p.map fun s => (if s.isLive then "" else "~") ++ toString s.id)
+
+def isCopy : Instr → Bool
+  | .xfer _ _ .copy _ => true
+  | _ => false
+
+def line (o : Op) (inp : Input) : String :=
+  let st := exec o inp
+  if !st.oob.isEmpty then "fault:oob" else
+  let args := (st.args.zipIdx.map fun (l, a) => s!"a{a}={showSlots l}")
+  " ".intercalate ([s!"t={tag o inp}", s!"r={showSlots st.res}"] ++ args ++
+    [s!"cp={showIds (sort (dedup st.cp))}", s!"mv={showIds (sort (st.mv ++ st.sw))}", s!"ram={showIds (sort (dedup st.ram))}"])
+
+def handle (toks : List String) : String :=
+  match toks with
+  | name :: ty :: n :: rest =>
+    match opOfName name, n.toNat? with
+    | some o, some n =>
+      if (ty ≠ "T" ∧ ty ≠ "M") ∨ rest.length < n then "bad-op" else
+      match (rest.take n).mapM parseArg, (rest.drop n).mapM String.toNat? with
+      | some args, some par =>
+        let inp : Input := { args := args, par := par }
+        if !wf o inp then "bad-op"
+        else if ty = "M" ∧ (prog o inp).any isCopy then "bad-op"
+        else line o inp
+      | _, _ => "bad-op"
+    | _, _ => "bad-op"
+  | _ => "bad-op"
+
+def main : IO Unit := Proto.run handle
+
 end Fcppt.C05.Drv
